@@ -408,11 +408,17 @@ fn family_b_specs(max_rules: usize) -> Vec<Spec> {
       for policy in POLICIES {
         for n_out in 1..=3usize {
           for with_default in [false, true] {
-            for with_values in [false, true] {
+            // output values: on no clause, on the first and the second, on the second only (a clause without output
+            // values before one that has them)
+            for values_mode in 0..3 {
+              if values_mode == 2 && n_out < 2 {
+                continue;
+              }
+              let with_values = values_mode >= 1;
               // aggregating policies are defined for one output clause only
               let mut outputs = vec![(
                 "o1".to_string(),
-                if with_values { Some(vec![OutCell::Num(3), OutCell::Num(1), OutCell::Num(2)]) } else { None },
+                if values_mode == 1 { Some(vec![OutCell::Num(3), OutCell::Num(1), OutCell::Num(2)]) } else { None },
                 if with_default { Some(OutCell::Num(2)) } else { None },
               )];
               if n_out >= 2 {
